@@ -1,4 +1,5 @@
 from datetime import datetime
+from io import BytesIO
 from pathlib import Path
 from typing import IO, List, Optional, Type, Union
 
@@ -370,6 +371,13 @@ class Tdf:
         except StopIteration:
             raise ValueError(f"Block limit reached ({len(self.entries)})")
 
+        # all the following slots must be unused too
+        if any(
+            entry.type != BlockType.unusedSlot
+            for entry in self.entries[unusedBlockPos + 1 :]
+        ):
+            raise IOError("All unused slots must be at the end of the file")
+
         # write new entry with the offset of that unused slot
         new_entry = TdfEntry(
             type=newBlock.type,
@@ -382,12 +390,20 @@ class Tdf:
             comment=comment,
         )
 
+        # serialize the entry and the block before touching the file or the
+        # table, so that a block or comment that can't be encoded leaves both
+        # exactly as they were
+        entry_buffer = BytesIO()
+        new_entry._write(entry_buffer)
+        block_buffer = BytesIO()
+        newBlock._write(block_buffer)
+
         # replace the entry
         self.entries[unusedBlockPos] = new_entry
 
         # write new entry
         self.handler.seek(64 + 288 * unusedBlockPos, 0)
-        new_entry._write(self.handler)
+        self.handler.write(entry_buffer.getvalue())
 
         # update all unused slots's offset
         for n, entry in enumerate(
@@ -402,7 +418,7 @@ class Tdf:
 
         # write new block
         self.handler.seek(new_entry.offset, 0)
-        newBlock._write(self.handler)
+        self.handler.write(block_buffer.getvalue())
 
         # ensure the file is the correct size
         # and that the changes are written to disk
